@@ -7,12 +7,13 @@ falls in (at least) one of the classes of `Issue`:
 
 * shapes the property itself excludes: `castChange` (an explicit width-changing `Bits<n>( … )`),
   `shiftMis` (shift amount narrower / wider than the shifted value);
-* shapes on which the checker is unsound (known findings): `rhsWide` (F4), `implArith` (F12),
-  `tmpFlip` (N1), `iteWidth` (N2), `explFold` (N3), `softArith` (N4: arithmetic between terms that are
-  typed explicit but may hold a Python int, i.e. if-expressions with one literal branch), `iteBool` (N5: an
-  if-expression with a comparison as one branch and a wider other branch);
-* shapes outside the proof only: `plusSlice` (`lo : lo + N` part selections), `constBound` (constant
-  slice bounds that are not plain integer expressions), `big` (a width outside 1..1023).
+* shapes on which the checker is unsound (known findings): `implArith` (F12), `tmpFlip` (N1), `softArith`
+  (N4: arithmetic between terms that are typed explicit but may hold a Python int, i.e. if-expressions
+  with one literal branch); `iteWidth` (an if-expression narrower than one of its branches) cannot occur
+  on an accepted block any more since the repair of `visit_IfExp` and is kept as a safety net;
+* shapes outside the proof only: `plusSlice` (`lo : lo + N` part selections whose bounds are not plain
+  integer expressions, e.g. a signal as base), `constBound` (constant slice bounds that are not plain integer
+  expressions), `big` (a width outside 1..1023).
 
 `hardE`: the term certainly evaluates to a `Bits` object (or raises).  A term that is not hard may hold
 a Python int at run time: implicit terms always do, explicit-typed if-expressions with a literal
@@ -21,14 +22,14 @@ branch sometimes do ("soft").
 namespace PV.TC
 
 inductive Issue where
-  | rhsWide | implArith | tmpFlip | iteWidth | explFold | softArith | iteBool
+  | implArith | tmpFlip | iteWidth | softArith
   | castChange | shiftMis
   | plusSlice | constBound | big
 deriving DecidableEq, Repr, Inhabited
 
 def Issue.name : Issue → String
-  | .rhsWide => "rhsWide" | .implArith => "implArith" | .tmpFlip => "tmpFlip" | .iteWidth => "iteWidth"
-  | .explFold => "explFold" | .softArith => "softArith" | .iteBool => "iteBool" | .castChange => "castChange"
+  | .implArith => "implArith" | .tmpFlip => "tmpFlip" | .iteWidth => "iteWidth"
+  | .softArith => "softArith" | .castChange => "castChange"
   | .shiftMis => "shiftMis" | .plusSlice => "plusSlice" | .constBound => "constBound" | .big => "big"
 
 def hardE (Γ : Env) : Expr → Bool
@@ -121,15 +122,13 @@ def foldedNonneg (a : Ann) : Bool :=
   | none => false
 
 def binIssues (op : Op) (la ra : Ann) (hl hr : Bool) (a : Ann) : List Issue :=
-  let fold := la.val.isSome && ra.val.isSome
   if op.isShift then
     if hl then
-      (if fold then [.explFold] else []) ++
       (if ra.ex then (if ra.w = la.w then [] else [.shiftMis]) else (if ra.w ≤ la.w then [] else [.shiftMis]))
     else if !la.ex && !ra.ex then (if foldedNonneg a then [] else [.implArith])
     else if la.ex then [.softArith] else [.implArith]
   else
-    if hl || hr then (if fold then [.explFold] else [])
+    if hl || hr then []
     else if !la.ex && !ra.ex then (if foldedNonneg a then [] else [.implArith])
     else [.softArith]
 
@@ -139,9 +138,8 @@ def cmpIssues (la ra : Ann) (hl hr : Bool) : List Issue :=
 def unIssues (ea : Ann) (he : Bool) : List Issue :=
   if he then [] else if ea.ex then [.softArith] else [.implArith]
 
-def iteIssues (ta fa : Ann) (w : Nat) (anyBool : Bool) : List Issue :=
-  if ta.w ≤ w ∧ fa.w ≤ w ∧ (ta.ex → ta.w = w) ∧ (fa.ex → fa.w = w) then []
-  else if anyBool then [.iteBool] else [.iteWidth]
+def iteIssues (ta fa : Ann) (w : Nat) : List Issue :=
+  if ta.w ≤ w ∧ fa.w ≤ w ∧ (ta.ex → ta.w = w) ∧ (fa.ex → fa.w = w) then [] else [.iteWidth]
 
 def castIssues (n : Nat) (ea : Ann) : List Issue :=
   widthIssues n ++
@@ -169,7 +167,6 @@ def issuesE (Γ : Env) : Expr → List Issue
   | .ite c t f =>
     (if intOnly c then [] else issuesE Γ c) ++ issuesE Γ t ++ issuesE Γ f ++
       iteIssues (annOf (checkE Γ t)) (annOf (checkE Γ f)) (annOf (checkE Γ (.ite c t f))).w
-        (isBoolE Γ t || isBoolE Γ f)
   | .cast n e => issuesE Γ e ++ castIssues n (annOf (checkE Γ e))
   | .ext _ _ e n => issuesE Γ e ++ widthIssues n
   | .red _ e => issuesE Γ e
@@ -179,7 +176,9 @@ def issuesE (Γ : Env) : Expr → List Issue
     widthIssues w ++
     (match (annOf (checkE Γ lo)).val, (annOf (checkE Γ hi)).val with
      | some _, some _ => if intOnly lo && intOnly hi then [] else [.constBound]
-     | _, _ => .plusSlice :: ((if intOnly lo then [] else issuesE Γ lo) ++ (if intOnly hi then [] else issuesE Γ hi)))
+     | _, _ =>
+       if intOnly lo && intOnly hi then []
+       else .plusSlice :: ((if intOnly lo then [] else issuesE Γ lo) ++ (if intOnly hi then [] else issuesE Γ hi)))
 
 /-- issues of an expression whose value is only tested for truth or converted with `int()` -/
 def posIssues (Γ : Env) (e : Expr) : List Issue := if intOnly e then [] else issuesE Γ e
@@ -193,9 +192,7 @@ def issuesS (Γ : Env) : Stmt → List Issue
   | .skip => []
   | .seq a b => issuesS Γ a ++ issuesS (envAfter Γ a) b
   | .asg tgt e =>
-    issuesE Γ tgt ++ issuesE Γ e ++
-      (let ea := annOf (checkE Γ e)
-       if !ea.ex && ea.w > (annOf (checkE Γ tgt)).w then [.rhsWide] else [])
+    issuesE Γ tgt ++ issuesE Γ e
   | .tasg t e =>
     let ea := annOf (checkE Γ e)
     issuesE Γ e ++
